@@ -679,6 +679,112 @@ func c05BatchNoteCall(items []string, b Bounds) *Scenario {
 	}
 }
 
+// c05Relabel: two Calls in flight; the caller whose reply arrives first does what a proxy does with a
+// finished response (Response.SetID, as jhttp.Bridge does) and gives it the id text of the request
+// that is still outstanding. A finished response is the caller's own: relabelling it must not reach
+// the client's bookkeeping, so the other Call still returns with the peer's reply, exactly once.
+func c05Relabel(items []string, b Bounds) *Scenario {
+	return &Scenario{
+		Name:   "call || call, a finished response is relabelled (SetID) with the id of the outstanding one, order=" + strings.Join(items, ">"),
+		Params: map[string]any{"start_order": items},
+		Bounds: b,
+		New: func() *Instance {
+			h := &cliHarness{}
+			body := func() {
+				lib, peer, pipe := NewPipe(PipeOpts{Name: "cli", CloseUnblocksRecv: true})
+				h.pipe, h.peer = pipe, peer
+				c := jrpc2.NewClient(lib, &jrpc2.ClientOptions{
+					OnCancel: func(_ *jrpc2.Client, r *jrpc2.Response) { vs.Event("hook", "OnCancel", r.ID()) },
+				})
+				h.cli = c
+				vs.GoNamed("peer", h.peerLoop)
+				var j Join
+				caller := func(m, other string) func() {
+					return func() {
+						rsp, err := c.Call(context.Background(), m, nil)
+						if err == nil {
+							res := rsp.ResultString()
+							if id := h.idOf(other); id != "" {
+								rsp.SetID(id)
+							} else {
+								rsp.SetID("2")
+							}
+							vs.Yield("ret")
+							vs.Note("ret", m, "ok", res)
+							return
+						}
+						vs.Yield("ret")
+						vs.Note("ret", m, "err", err.Error())
+					}
+				}
+				for _, it := range items {
+					switch it {
+					case "op":
+						j.Go("op", caller("m0", "m1"))
+					case "op2":
+						j.Go("op2", caller("m1", "m0"))
+					case "r0", "r1":
+						m := "m" + it[1:]
+						j.Go(it, func() {
+							vs.Await(func() bool { return h.idOf(m) != "" || h.peerDone }, "await request")
+							if id := h.idOf(m); id != "" {
+								h.send(fmt.Sprintf(`{"jsonrpc":"2.0","id":%s,"result":"R:%s"}`, id, m))
+							}
+						})
+					}
+				}
+				vs.AwaitQuiescence()
+				if j.n > 0 {
+					vs.Event("call", "Close")
+					c.Close()
+				}
+				j.Wait()
+				c.Close()
+				vs.AwaitQuiescence()
+				n, ok := privLen(c, "pending")
+				vs.Note("snapshot", fmt.Sprintf("pending=%d/%v", n, ok))
+			}
+			check := func(x *vs.Exec) []Viol {
+				v := genericRules(x, nil)
+				if x.Outcome != "ok" {
+					return v
+				}
+				closed := findEv(x, 0, "call", "Close")
+				for _, m := range []string{"m0", "m1"} {
+					Hit("C05.R1")
+					i := findEv(x, 0, "ret", m)
+					if i < 0 {
+						v = append(v, Viol{"C05.R1", "the operation for " + m + " did not return"})
+						continue
+					}
+					e := x.Log[i]
+					Hit("C05.R2")
+					if e.Arg(1) != "ok" {
+						if closed < 0 || closed > i {
+							v = append(v, Viol{"C05.R2", fmt.Sprintf("%s failed with %q although the peer answered it and nothing happened to the client", m, e.Arg(2))})
+						}
+					} else if e.Arg(2) != fmt.Sprintf("%q", "R:"+m) {
+						v = append(v, Viol{"C05.R2", fmt.Sprintf("%s returned %s, the peer sent %q for it", m, e.Arg(2), "R:"+m)})
+					}
+				}
+				for _, e := range x.Log {
+					if e.K == "hook" && e.Arg(0) == "OnCancel" && closed < 0 {
+						v = append(v, Viol{"C05.R4", "OnCancel ran although every request was answered"})
+					}
+				}
+				if s := findEv(x, 0, "snapshot"); s >= 0 {
+					Hit("C05.R7")
+					if a := x.Log[s].Arg(0); strings.HasSuffix(a, "/true") && a != "pending=0/true" {
+						v = append(v, Viol{"C05.R7", "requests still pending after Close: " + a})
+					}
+				}
+				return v
+			}
+			return &Instance{Body: body, Check: check}
+		},
+	}
+}
+
 func c05Scenarios(tier string) []*Scenario {
 	var out []*Scenario
 	q := tier == "quick"
@@ -741,6 +847,7 @@ func c05Scenarios(tier string) []*Scenario {
 			b = Bounds{2, 2, 0}
 		}
 		out = append(out, c05BatchNoteCall(o, b))
+		out = append(out, c05Relabel(o, b))
 	}
 	if !q {
 		for _, tr := range [][]string{{"reply", "cancel", "close"}, {"reply", "eof", "close"}, {"callback", "reply", "close"}, {"cancel", "recverr", "reply"}} {
